@@ -54,6 +54,8 @@ def candidates(lines):
         s = ln.strip()
         if s.startswith("//") or not s or s.startswith("import") or s.startswith("package"):
             continue
+        if os.environ.get("MUT_NO_TABLES") and re.match(r"^(true|false)(, (true|false))*,?(\s*//.*)?$", s):
+            continue  # rows of the 256-entry lookup tables
         code = ln.split("//")[0]
         if '"' in code or "'" in code or "`" in code:
             # keep it simple: only mutate outside string/rune literals
